@@ -154,7 +154,13 @@ func genCases(seed int64, n, length int, scale string, multi bool, features stri
 				first := post("v2", 0)
 				feat := map[string]string(nil)
 				tail := imp
-				switch (i / 4) % 2 {
+				switch (i / 4) % 3 {
+				case 2:
+					// the accepted write is an atomic bulk (its transaction is opened by the caller, not by the
+					// state tracker's handleState), then the tail of the journal is sent
+					first = post("bulk-atomic", 0)
+					feat = map[string]string{"HASH_LOGS": "DISABLED"}
+					tail.ID = 2
 				case 1:
 					// the accepted write is a metadata write (no transaction id involved), and the client then
 					// sends only the tail of the journal (ids above the log the write took); unhashed logs, so
